@@ -58,6 +58,7 @@ fn outcome_hash(o: &Outcome, steps: u32) -> u64 {
         Outcome::Returned(o) => {
             f.str(&o.code);
             f.str(&o.sig);
+            f.str(&o.spans);
             for d in &o.diags {
                 f.str(d)
             }
@@ -177,6 +178,157 @@ pub fn load_table(workload_dir: &str, table: &str, key_seed: u64, timeout: Durat
     Ok(Loaded { tasks, refs, info, solo_hashes, solo_violations, parse_failures, modules: mods.len() })
 }
 
+/// What came out of preparing one raw `gen` plan.
+#[derive(Default)]
+pub struct GenPrep {
+    /// violations seen on a generated task run alone (T, R, or D fresh-process), with the task
+    pub violations: Vec<(Violation, PlanTask)>,
+    pub generated: u64,
+    pub unparseable: u64,
+    pub solo_execs: u64,
+    pub ts: u64,
+    pub with_diags: u64,
+}
+
+pub fn is_gen(t: &PlanTask) -> bool {
+    t.name.starts_with("gen/")
+}
+
+/// The module name used to tell findings apart: every generated module has a name of its own, so
+/// findings on generated modules are told apart by what failed, not by where.
+pub fn module_class(name: &str) -> String {
+    if name.starts_with("gen/") {
+        "gen/*".to_string()
+    } else {
+        name.to_string()
+    }
+}
+
+/// Solo result of a generated task under a second set of hash keys; Some(violation) if the task does
+/// not return alone, leaves residue, or gives another result than `first` (the fresh-process clause).
+fn gen_solo_violation(idx: usize, t: &PlanTask, first: &crate::sched::SoloResult, alt_key: u64, timeout: Duration, execs: &mut u64) -> Option<Violation> {
+    if let Some(v) = oracle::check_solo(idx, t, first) {
+        return Some(v);
+    }
+    if !matches!(first.outcome, Outcome::Returned(_)) {
+        return None;
+    }
+    *execs += 1;
+    let second = References::new(alt_key, timeout).get(t);
+    if outcome_hash(&first.outcome, first.steps) != outcome_hash(&second.outcome, second.steps) {
+        let mut detail = vec![format!("the result of generated task {} run alone differs between two fresh processes (hash keys differ)", t.key())];
+        if let (Outcome::Returned(a), Outcome::Returned(b)) = (&first.outcome, &second.outcome) {
+            for (x, y) in a.code.lines().zip(b.code.lines()) {
+                if x != y {
+                    detail.push(format!("process 1: {x}"));
+                    detail.push(format!("process 2: {y}"));
+                    break;
+                }
+            }
+        } else {
+            detail.push(format!("process 2: {:?}", second.outcome).chars().take(300).collect());
+        }
+        return Some(Violation { clause: "D".into(), task_idx: idx, task_key: t.key(), component: "fresh-process".into(), fingerprint: "solo".into(), detail });
+    }
+    None
+}
+
+/// Computes the solo references of the generated tasks of a raw `gen` plan, drops those that do not
+/// parse (counted) or violate C08 alone (returned), and plants the faults. Pure in (plan, code under test).
+pub fn prepare_gen(plan: &mut Plan, refs: &mut References) -> GenPrep {
+    let mut out = GenPrep::default();
+    let alt_key = mix(plan.key_seed ^ 0x616c_7431);
+    let mut keep: Vec<PlanTask> = vec![];
+    let mut steps = vec![];
+    let mut ndiags = vec![];
+    for (i, t) in plan.tasks.iter().enumerate() {
+        let before = refs.computed;
+        let r = refs.get(t);
+        out.solo_execs += refs.computed - before;
+        if is_gen(t) {
+            out.generated += 1;
+            out.ts += t.ts as u64;
+            if let Outcome::ParseFail(_) = r.outcome {
+                out.unparseable += 1;
+                continue;
+            }
+            if let Some(v) = gen_solo_violation(i, t, &r, alt_key, refs.timeout, &mut out.solo_execs) {
+                out.violations.push((v, t.clone()));
+                continue;
+            }
+        }
+        let Outcome::Returned(o) = &r.outcome else { continue };
+        out.with_diags += (is_gen(t) && !o.diags.is_empty()) as u64;
+        steps.push(r.steps);
+        ndiags.push(o.diags.len() as u32);
+        keep.push(t.clone());
+    }
+    plan.tasks = keep;
+    if let Strategy::Pct { priorities, .. } = &mut plan.strategy {
+        // priorities are per task: keep it a permutation of what is left
+        let n = plan.tasks.len() as u32;
+        priorities.retain(|p| *p < n);
+    }
+    World::finish_gen(plan, &steps, &ndiags);
+    out
+}
+
+/// Shrinks the text of a generated task that violates C08 alone: drops lines (every line of a
+/// generated module is a complete statement) while the same component keeps failing.
+pub fn shrink_gen(t: &PlanTask, v: &Violation, key_seed: u64, timeout: Duration) -> (PlanTask, u32) {
+    let mut best = t.clone();
+    let mut execs = 0u32;
+    let t0 = std::time::Instant::now();
+    let fails = |cand: &PlanTask, execs: &mut u32| -> bool {
+        *execs += 1;
+        let first = References::new(key_seed, timeout).get(cand);
+        let mut e = 0u64;
+        match gen_solo_violation(0, cand, &first, mix(key_seed ^ 0x616c_7431), timeout, &mut e) {
+            Some(v2) => v2.class() == v.class() && v2.component == v.component,
+            None => false,
+        }
+    };
+    loop {
+        let mut progressed = false;
+        let lines: Vec<String> = best.src.lines().map(String::from).collect();
+        let mut i = lines.len();
+        while i > 0 {
+            i -= 1;
+            if execs >= 120 || t0.elapsed() > Duration::from_secs(40) {
+                return (best, execs);
+            }
+            let cur: Vec<String> = best.src.lines().map(String::from).collect();
+            if i >= cur.len() || cur.len() <= 1 {
+                continue;
+            }
+            let mut cand = best.clone();
+            cand.src = cur.iter().enumerate().filter(|(j, _)| *j != i).map(|(_, l)| l.as_str()).collect::<Vec<_>>().join("\n") + "\n";
+            if fails(&cand, &mut execs) {
+                best = cand;
+                progressed = true;
+            }
+        }
+        if !progressed {
+            break;
+        }
+    }
+    // simpler configuration: comments off, Module instead of Script
+    for f in [0, 1] {
+        let mut cand = best.clone();
+        if f == 0 && cand.script {
+            cand.script = false;
+        } else if f == 1 && !cand.comments {
+            cand.comments = true;
+        } else {
+            continue;
+        }
+        if fails(&cand, &mut execs) {
+            best = cand;
+        }
+    }
+    (best, execs)
+}
+
 #[derive(Default)]
 struct Stats {
     runs: BTreeMap<String, u64>,
@@ -191,6 +343,7 @@ struct Stats {
     deaths: u64,
     /// runs per value of each dimension of the simulated host
     dims: BTreeMap<String, u64>,
+    gen: GenPrep,
 }
 
 fn add(a: &mut Counters, b: &Counters) {
@@ -346,7 +499,45 @@ pub fn child_main(a: ChildArgs) -> i32 {
                 continue;
             }
             emit(json!({"s": stratum, "run": run}));
-            let (plan, script) = world.plan(stratum, run);
+            let (mut plan, script) = world.plan(stratum, run);
+            if stratum == "gen" {
+                let prep = prepare_gen(&mut plan, &mut refs);
+                st.gen.generated += prep.generated;
+                st.gen.unparseable += prep.unparseable;
+                st.gen.solo_execs += prep.solo_execs;
+                st.gen.ts += prep.ts;
+                st.gen.with_diags += prep.with_diags;
+                for (v, t) in prep.violations {
+                    violations_total += 1;
+                    let sig = (v.class().to_string(), module_class(&t.name), v.component.clone());
+                    if !seen_sigs.insert(sig) {
+                        continue;
+                    }
+                    let (small, execs) = shrink_gen(&t, &v, key_seed, refs.timeout.min(Duration::from_secs(10)));
+                    st.minimise_execs += execs as u64;
+                    let fresh = v.component == "fresh-process";
+                    let rf = ReplayFile {
+                        property: "C08".into(),
+                        note: format!(
+                            "generated module (stratum gen run {run}, seed {}), text minimised from {} to {} lines with {execs} executions; {}",
+                            a.seed,
+                            t.src.lines().count(),
+                            small.src.lines().count(),
+                            if fresh { "D (fresh-process clause): its result run alone depends on the process's hash keys" } else { "the transform does not return on this module alone (no schedule or fault needed)" }
+                        ),
+                        plan: Plan { stratum: if fresh { "solo2".into() } else { "solo".into() }, workers: 1, globals: GlobalsMode::PerTask, store: StoreMode::PerTask, strategy: Strategy::Script, boundary_fault_pct: 0, allow_replace: false, max_restarts: 0, key_seed, opts_per_task: false, stack_kib: vec![], handler_shared: false, tasks: vec![small.clone()], ..plan.clone() },
+                        script: Some(vec![]),
+                        expected: Some(Expected { task: small.key(), ..v.expected() }),
+                        detail: v.detail.clone(),
+                    };
+                    let path = write_replay(&a.out_dir, &format!("C08-{}-gen-{}-{}-{:08x}.json", a.seed, run, sanitize(&t.name.rsplit('.').next().unwrap_or("").to_string()), fnv_str(&format!("{}{}", v.task_key, v.component)) as u32), &rf);
+                    emit(json!({"violation": {"clause": v.clause, "task": v.task_key, "module": t.name, "opt": t.options, "component": v.component, "replay": path, "detail": v.detail.iter().cloned().chain(small.src.lines().take(12).map(|l| format!("  | {l}"))).collect::<Vec<_>>(), "stratum": "gen"}}));
+                }
+                if plan.tasks.is_empty() {
+                    continue;
+                }
+            }
+            let plan = plan;
             let script_opt: Option<&[Action]> = if script.is_empty() { None } else { Some(&script) };
             let res = oracle::run_forked(&plan, script_opt, &mut refs);
             *st.runs.entry(stratum.to_string()).or_default() += 1;
@@ -411,7 +602,7 @@ pub fn child_main(a: ChildArgs) -> i32 {
                 }
                 violations_total += 1;
                 let module = if v.is_death() { format!("{stratum}:{run}") } else { plan.tasks[v.task_idx].name.clone() };
-                let sig = (v.class().to_string(), module.clone(), v.component.clone());
+                let sig = (v.class().to_string(), module_class(&module), v.component.clone());
                 if seen_sigs.contains(&sig) || minimised >= a.max_minimise {
                     continue;
                 }
@@ -441,6 +632,13 @@ pub fn child_main(a: ChildArgs) -> i32 {
                     }
                 }
             }
+            if stratum == "gen" {
+                for t in &plan.tasks {
+                    if is_gen(t) {
+                        refs.forget(t);
+                    }
+                }
+            }
         }
     }
     let wall = t0.elapsed().as_secs_f64();
@@ -463,6 +661,7 @@ pub fn child_main(a: ChildArgs) -> i32 {
         "audits": st.audits, "audit_mismatch": st.audit_mismatch, "minimise_execs": st.minimise_execs,
         "violations_total": violations_total, "solos_computed": refs.computed, "deaths": st.deaths, "skipped_after_deaths": skipped_after_deaths,
         "samples": samples, "harness_errors": harness_errors, "dims": st.dims,
+        "gen": {"generated": st.gen.generated, "unparseable": st.gen.unparseable, "solo_execs": st.gen.solo_execs, "ts": st.gen.ts, "with_diags": st.gen.with_diags},
     }}));
     let _ = fnv_str;
     0
